@@ -574,6 +574,7 @@ class Gen:
         self.evs = [SourceEval(self.prog, r, analysis=True) for r in _GEN_RHOS]
         self.next_tag = 1000
         self.features = set()
+        self.no_dup = False   # True: no unit reads the same object twice
 
     # -- bookkeeping ---------------------------------------------------------
     def tag(self):
@@ -591,6 +592,10 @@ class Gen:
             and not self.info[o[1]].semc
 
     def add(self, nd):
+        if self.no_dup and nd['k'] not in ('sink', 'list', 'param', 'idx'):
+            refs = [o[1] for o in operands_of(nd) if o[0] == 'n']
+            if len(refs) != len(set(refs)):
+                return None
         i = len(self.prog['nodes'])
         self.prog['nodes'].append(nd)
         for o in operands_of(nd):
@@ -1229,6 +1234,9 @@ def gen_program_c02(rng, kind, name=None):
     big = kind == 'big'
     g = Gen2(rng, 'c02', name=name or random_name(rng),
              max_nodes=420 if big else 70, max_depth=7, big_consts=big)
+    # hundreds of units: keep clear of the `x op x` dead-code defect (C01) so
+    # that big definitions are emitted at all on a tree that still has it
+    g.no_dup = big
     g.params(rng.choice([0, 1, 2, 3, 4, 6, 8]), arrays=True,
              gate=rng.random() < 0.4)
     for i, inf in enumerate(list(g.info)):       # channels of array controls
@@ -1239,7 +1247,7 @@ def gen_program_c02(rng, kind, name=None):
     for _ in range(rng.randint(1, 4)):
         g.mk_src(rng.choice(['SinOsc', 'LFSaw', 'Impulse', 'WhiteNoise', 'Rand',
                              'LFNoise0', 'SampleRate']))
-    prods = list(C01_PRODUCTIONS)
+    prods = [p for p in C01_PRODUCTIONS if not (big and p[0] == 'p_self')]
     if kind in ('mc', 'big'):
         prods += [('p_list', 4), ('p_mc', 10), ('p_sink_list', 3)]
     if kind in ('wf', 'big'):
